@@ -76,7 +76,7 @@ def features(graph):
 
 
 EXCLUDING = ('shared_cand', 'switch_in_cand', 'switch_in_rec', 'oneof_in_rec', 'rec_overlap',
-             'rec_outside_reader', 'rec_bad', 'rec_in_cand', 'oneof_in_cand')
+             'rec_outside_reader', 'rec_bad', 'rec_in_cand')
 
 
 def excluding_features(graph):
@@ -87,8 +87,7 @@ def excluding_features(graph):
 def in_fragment(graph):
     """(bool, reason) — is the program inside the fragment where Sem-based monitors apply"""
     f = features(graph)
-    for k in ('shared_cand', 'switch_in_cand', 'switch_in_rec', 'oneof_in_rec', 'rec_overlap',
-              'rec_outside_reader', 'rec_bad', 'rec_in_cand', 'oneof_in_cand'):
+    for k in EXCLUDING:
         if f.get(k):
             return False, k
     return True, 'ok'
